@@ -3,46 +3,57 @@ package main
 import (
 	"fmt"
 	"go/constant"
+	"math"
+	"time"
 	"go/token"
 	"go/types"
 	"os"
 	"runtime/debug"
-	"sort"
 	"strings"
 
 	"golang.org/x/tools/go/ssa"
 )
 
 type Engine struct {
-	prog       *ssa.Program
-	sv         *Solver
-	globals    map[*ssa.Global]ObjID
-	ginit      *State // heap template holding globals
-	Paths      int
-	Completed  int
-	Violations []Violation
-	Unsupp     map[string]int
-	Inputs     []*Term // declared nondet variables
-	inputN     int
-	MaxIter    int
-	Entered    map[string]bool
-	Instrs     int
-	tolerant   bool
-	leafSink   func(*State)
+	prog         *ssa.Program
+	sv           *Solver
+	globals      map[*ssa.Global]ObjID
+	Paths        int
+	Completed    int
+	Violations   []Violation
+	Unsupp       map[string]int
+	internalN    int
+	MaxIter      int
+	Entered      map[string]bool
+	Instrs       int
+	tolerant     bool
+	leafSink     func(*State)
 	summaryDepth int
-	Merged     int
-	mergeSet   map[string]bool
-	initPkg    string
-	Reached    map[string]bool
-	maxPaths   int
-	verbose    bool
+	Merged       int
+	mergeSet     map[string]bool
+	initPkgs     map[string]bool // packages whose initialiser is interpreted
+	Reached      map[string]*Vector
+	ReachObs     map[string][]string
+	maxPaths     int
+	verbose      bool
+	params       map[string]int
+	pins         map[string]int
+	harnessID    string
+	entryName    string
+	Obligations  int // proof obligations raised (non-trivial)
+	Discharged   int // ... answered unsat
+	Branches     int
+	known        []KnownFinding
+	deadline     time.Time
+	seenViol     map[string]bool
+	noPanicCheck bool
+	frozenInputs bool
 }
 
-func (e *Engine) fresh(name string, w int) *Term {
-	e.inputN++
-	t := Var(fmt.Sprintf("%s_%d", sanitize(name), e.inputN), w)
-	e.Inputs = append(e.Inputs, t)
-	return t
+// internalVar is an unconstrained value that is not a harness input (opaque lengths etc.).
+func (e *Engine) internalVar(name string, w int) *Term {
+	e.internalN++
+	return Var(fmt.Sprintf("i_%s_%d", sanitize(name), e.internalN), w)
 }
 
 func sanitize(s string) string {
@@ -74,11 +85,16 @@ func (e *Engine) constVal(c *ssa.Const) Value {
 		u, _ := constant.Uint64Val(constant.ToInt(c.Value))
 		return BV(w, u)
 	}
+	if b, ok := t.Underlying().(*types.Basic); ok && b.Info()&types.IsFloat != 0 {
+		f, _ := constant.Float64Val(c.Value)
+		if b.Kind() == types.Float32 {
+			return BV(32, uint64(math.Float32bits(float32(f))))
+		}
+		return BV(64, math.Float64bits(f))
+	}
 	switch c.Value.Kind() {
 	case constant.String:
 		return StringV{conc: constant.StringVal(c.Value)}
-	case constant.Float:
-		return Unknown{"float const"}
 	}
 	return Unknown{"const " + c.String()}
 }
@@ -110,15 +126,30 @@ func (e *Engine) globalObj(st *State, g *ssa.Global) ObjID {
 		}
 		return id
 	}
+	if !e.tolerant && g.Pkg != nil && !e.initPkgs[g.Pkg.Pkg.Path()] && !zeroOKGlobal(g) {
+		panic(unsupported{"global " + g.String() + " of a package whose initialiser was not interpreted"})
+	}
 	o := newObjFor(g.Type().(*types.Pointer).Elem())
 	id := st.alloc(o)
 	e.globals[g] = id
 	return id
 }
 
+// zeroOKGlobal: globals of un-initialised packages that are correct as zero values.
+func zeroOKGlobal(g *ssa.Global) bool {
+	switch g.String() {
+	case "encoding/binary.BigEndian", "encoding/binary.LittleEndian":
+		return true
+	}
+	return false
+}
+
 func term(v Value) *Term {
 	t, ok := v.(*Term)
 	if !ok {
+		if u, isU := v.(Unknown); isU {
+			panic(unsupported{"use of unknown value: " + u.why})
+		}
 		panic(unsupported{fmt.Sprintf("expected scalar, got %T", v)})
 	}
 	return t
@@ -128,8 +159,7 @@ func term(v Value) *Term {
 
 func (e *Engine) load(st *State, p Pointer, t types.Type, pos token.Pos) Value {
 	if p.obj == 0 {
-		e.fail(st, "nil pointer dereference", pos)
-		panic(pathEnd{})
+		e.goPanic(st, "nil pointer dereference", pos)
 	}
 	o := st.obj(p.obj)
 	n := slotsOf(t)
@@ -155,37 +185,58 @@ func (e *Engine) load(st *State, p Pointer, t types.Type, pos token.Pos) Value {
 		return unflatten(t, o.slots, &pos2)
 	}
 	if n != 1 {
-		// symbolic offset of a multi-slot element: case split over element positions
-		panic(unsupported{"symbolic offset load of multi-slot value"})
+		// symbolic offset of a multi-slot element: component-wise ite over the aligned positions
+		return e.loadSymMulti(st, o, p.off, t, n)
 	}
-	var res *Term
+	var res Value
 	for j := len(o.slots) - 1; j >= 0; j-- {
-		sv, ok := o.slots[j].(*Term)
-		if !ok {
-			panic(unsupported{"symbolic offset load of non-scalar slot"})
-		}
 		if res == nil {
-			res = sv
+			res = o.slots[j]
 		} else {
-			res = Ite(Eq(p.off, BV(64, uint64(j))), sv, res)
+			res = e.iteValue(Eq(p.off, BV(64, uint64(j))), o.slots[j], res)
 		}
+	}
+	return res
+}
+
+func (e *Engine) loadSymMulti(st *State, o *Object, off *Term, t types.Type, n int) Value {
+	var res Value
+	for j := (len(o.slots)/n - 1) * n; j >= 0; j -= n {
+		pos := j
+		v := unflatten(t, o.slots, &pos)
+		if res == nil {
+			res = v
+		} else {
+			res = e.iteValue(Eq(off, BV(64, uint64(j))), v, res)
+		}
+	}
+	if res == nil {
+		panic(unsupported{"symbolic load from empty object"})
 	}
 	return res
 }
 
 func (e *Engine) checkPoison(st *State, o *Object, idx *Term, pos token.Pos) {
 	if o.poisonFrom != nil {
-		e.oblige(st, Cmp("bvuge", idx, o.poisonFrom), "read beyond the declared data (poison byte)", pos)
+		e.obligeKind(st, Cmp("bvuge", idx, o.poisonFrom), "read beyond the declared data (stale bytes between len and cap)", pos, "poison")
 	}
 }
 
 func (e *Engine) store(st *State, p Pointer, t types.Type, v Value, pos token.Pos) {
 	if p.obj == 0 {
-		e.fail(st, "nil pointer dereference (store)", pos)
-		panic(pathEnd{})
+		e.goPanic(st, "nil pointer dereference (store)", pos)
 	}
 	o := st.wobj(p.obj)
 	if o.arr != nil {
+		if o.inputName != "" && e.frozenInputs {
+			e.report(st, Bool(true), "write into the caller's input buffer", pos, "assert")
+		}
+		if av, ok := v.(ArrayV); ok {
+			for k, x := range av.e {
+				o.arr = Store(o.arr, Bin("bvadd", p.off, BV(64, uint64(k))), term(x))
+			}
+			return
+		}
 		o.arr = Store(o.arr, p.off, term(v))
 		return
 	}
@@ -198,16 +249,12 @@ func (e *Engine) store(st *State, p Pointer, t types.Type, v Value, pos token.Po
 		copy(o.slots[off:], vals)
 		return
 	}
-	if len(vals) != 1 {
-		panic(unsupported{"symbolic offset store of multi-slot value"})
-	}
-	nv := term(vals[0])
-	for j := range o.slots {
-		old, ok := o.slots[j].(*Term)
-		if !ok {
-			panic(unsupported{"symbolic offset store over non-scalar slot"})
+	n := len(vals)
+	for j := 0; j+n <= len(o.slots); j += n {
+		c := Eq(p.off, BV(64, uint64(j)))
+		for k := 0; k < n; k++ {
+			o.slots[j+k] = e.iteValue(c, vals[k], o.slots[j+k])
 		}
-		o.slots[j] = Ite(Eq(p.off, BV(64, uint64(j))), nv, old)
 	}
 }
 
@@ -215,37 +262,163 @@ func (e *Engine) store(st *State, p Pointer, t types.Type, v Value, pos token.Po
 
 type pathEnd struct{}
 
-func (e *Engine) model(st *State, extra ...*Term) map[string]string {
-	return e.sv.Values(extra, e.Inputs)
+// vectorFor extracts a concrete input vector from a model of pc ∧ extra.
+func (e *Engine) vectorFor(st *State, extra ...*Term) (*Vector, []string) {
+	var terms []*Term
+	terms = append(terms, st.inputs...)
+	for _, b := range st.bufs {
+		terms = append(terms, b.ln)
+		for k := 0; k < b.max+b.slack; k++ {
+			terms = append(terms, Select(b.arr, BV(64, uint64(k))))
+		}
+	}
+	for _, o := range st.obs {
+		terms = append(terms, o.val)
+	}
+	vals := e.sv.Eval(extra, terms)
+	if vals == nil {
+		return nil, nil
+	}
+	v := &Vector{Harness: e.harnessID, Entry: e.entryName, Vars: map[string]string{}, Bytes: map[string]VecBuf{}, Choices: map[string]int{}, Params: e.params}
+	i := 0
+	for _, t := range st.inputs {
+		v.Vars[st.keys[t.id]] = fmt.Sprint(vals[i])
+		i++
+	}
+	for _, b := range st.bufs {
+		ln := int(vals[i])
+		i++
+		var sb strings.Builder
+		for k := 0; k < b.max+b.slack; k++ {
+			if k < ln+b.slack {
+				fmt.Fprintf(&sb, "%02x", vals[i]&0xff)
+			}
+			i++
+		}
+		v.Bytes[b.key] = VecBuf{Len: ln, Cap: ln + b.slack, Hex: sb.String()}
+	}
+	var obs []string
+	for _, o := range st.obs {
+		obs = append(obs, fmt.Sprintf("%s=%d", o.label, vals[i]))
+		i++
+	}
+	for k, c := range st.choices {
+		v.Choices[k] = c
+	}
+	return v, obs
 }
 
-func (e *Engine) fail(st *State, what string, pos token.Pos) {
-	e.Violations = append(e.Violations, Violation{What: what, Pos: e.prog.Fset.Position(pos), Model: e.model(st), Kind: "panic"})
+// report records a violation whose condition `bad` is satisfiable on this path (the caller has checked that),
+// after filtering by the known-findings file.
+func (e *Engine) report(st *State, bad *Term, what string, pos token.Pos, kind string) {
+	p := e.prog.Fset.Position(pos)
+	ps := fmt.Sprintf("%s:%d", p.Filename, p.Line)
+	var matching []KnownFinding
+	for _, k := range e.known {
+		if k.Harness == e.harnessID && strings.Contains(what, k.Label) {
+			matching = append(matching, k)
+		}
+	}
+	if len(matching) > 0 {
+		// is there a violation outside every listed witness predicate?
+		outside := bad
+		for _, k := range matching {
+			outside = And(outside, Not(e.predicateTerm(st, k)))
+		}
+		if r := e.sv.Check(outside); r == "unsat" {
+			// every failing input is covered by a listed finding: report each one that is realised
+			for _, k := range matching {
+				in := And(bad, e.predicateTerm(st, k))
+				key := "known|" + k.ID
+				if e.seenViol[key] {
+					continue
+				}
+				if vec, obs := e.vectorFor(st, in); vec != nil {
+					e.seenViol[key] = true
+					e.Violations = append(e.Violations, Violation{What: what, Pos: ps, Kind: kind, Vector: vec, Known: k.ID, Obs: obs})
+				}
+			}
+			return
+		}
+		bad = outside
+	}
+	key := kind + "|" + what + "|" + ps
+	if e.seenViol[key] {
+		return
+	}
+	vec, obs := e.vectorFor(st, bad)
+	if vec == nil {
+		e.Violations = append(e.Violations, Violation{What: "INCONCLUSIVE (model extraction failed) " + what, Pos: ps, Kind: "unknown"})
+		return
+	}
+	e.seenViol[key] = true
+	e.Violations = append(e.Violations, Violation{What: what, Pos: ps, Kind: kind, Vector: vec, Obs: obs})
 }
 
-// oblige: `bad` must be unsatisfiable on this path; afterwards the path continues under !bad.
+// goPanic: an unconditional Go panic on this path.
+func (e *Engine) goPanic(st *State, what string, pos token.Pos) {
+	if e.canRecover(st) {
+		e.startUnwind(st, what, pos)
+		panic(resumeStep{})
+	}
+	e.report(st, Bool(true), "panic: "+what, pos, "panic")
+	panic(pathEnd{})
+}
+
+// oblige: `bad` must be unsatisfiable on this path (implicit panic site); afterwards the path continues under !bad.
 func (e *Engine) oblige(st *State, bad *Term, what string, pos token.Pos) {
+	e.obligeKind(st, bad, "panic: "+what, pos, "panic")
+}
+
+func (e *Engine) obligeKind(st *State, bad *Term, what string, pos token.Pos, kind string) {
 	if bad.k && bad.c == 0 {
 		return
 	}
-	r := e.sv.Check(bad)
-	if r == "sat" {
-		e.Violations = append(e.Violations, Violation{What: what, Pos: e.prog.Fset.Position(pos), Model: e.model(st, bad), Kind: "panic"})
-	} else if r == "unknown" {
-		e.Violations = append(e.Violations, Violation{What: "INCONCLUSIVE " + what, Pos: e.prog.Fset.Position(pos), Kind: "unknown"})
+	if kind == "panic" && e.canRecover(st) {
+		// a recover() is pending on the stack: the panic is a legal outcome; explore both sides
+		e.branchPanic(st, bad, what, pos)
+		return
+	}
+	e.Obligations++
+	r := "sat"
+	if !bad.k {
+		r = e.sv.Check(bad)
+	}
+	switch r {
+	case "sat":
+		e.report(st, bad, what, pos, kind)
+	case "unknown":
+		p := e.prog.Fset.Position(pos)
+		e.Violations = append(e.Violations, Violation{What: "INCONCLUSIVE (solver unknown) " + what, Pos: fmt.Sprintf("%s:%d", p.Filename, p.Line), Kind: "unknown"})
+	default:
+		e.Discharged++
 	}
 	if bad.k { // always fails
 		panic(pathEnd{})
 	}
 	e.assume(st, Not(bad))
-	if e.sv.Check() == "unsat" {
+	if r != "unsat" && e.sv.Check() == "unsat" {
 		panic(pathEnd{})
 	}
 }
 
 func (e *Engine) assume(st *State, c *Term) {
+	if c.k && c.c != 0 {
+		return
+	}
 	st.pc = append(st.pc, c)
 	e.sv.Assert(c)
+}
+
+func (e *Engine) reach(st *State, label string) {
+	if _, ok := e.Reached[label]; ok {
+		return
+	}
+	vec, obs := e.vectorFor(st)
+	if vec != nil {
+		e.Reached[label] = vec
+		e.ReachObs[label] = obs
+	}
 }
 
 // ---- exploration ----
@@ -270,7 +443,11 @@ func (e *Engine) Explore(st *State) {
 			e.Unsupp["path budget exceeded"]++
 			return
 		}
-		e.step(st)
+		if e.Instrs&0x3ff == 0 && !e.deadline.IsZero() && time.Now().After(e.deadline) {
+			e.Unsupp["harness time budget exceeded"]++
+			return
+		}
+		e.safeStep(st)
 	}
 	if e.leafSink != nil {
 		e.leafSink(st)
@@ -278,6 +455,20 @@ func (e *Engine) Explore(st *State) {
 	}
 	e.Paths++
 	e.Completed++
+}
+
+// safeStep executes one instruction; a resumeStep panic abandons the instruction (the state has
+// been redirected, e.g. into a deferred call by the unwinder) and exploration continues.
+func (e *Engine) safeStep(st *State) {
+	defer func() {
+		if r := recover(); r != nil {
+			if _, ok := r.(resumeStep); ok {
+				return
+			}
+			panic(r)
+		}
+	}()
+	e.step(st)
 }
 
 // branch explores the alternatives (cond_i, continuation_i) depth-first.
@@ -297,6 +488,7 @@ func (e *Engine) branch(st *State, conds []*Term, apply func(st *State, i int)) 
 	if len(feasible) == 0 {
 		panic(pathEnd{})
 	}
+	e.Branches += len(feasible)
 	for n, i := range feasible {
 		cur := st
 		if n < len(feasible)-1 {
@@ -361,6 +553,10 @@ func (e *Engine) pushFrame(st *State, fn *ssa.Function, args []Value, call ssa.V
 func (e *Engine) doReturn(st *State, vals []Value) {
 	f := st.top()
 	st.frames = st.frames[:len(st.frames)-1]
+	if f.panicDefer {
+		e.afterPanicDefer(st)
+		return
+	}
 	var res Value
 	switch len(vals) {
 	case 0:
@@ -482,8 +678,7 @@ func (e *Engine) exec(st *State, f *Frame, ins ssa.Instruction) {
 			panic(unsupported{fmt.Sprintf("fieldaddr of %T", e.get(st, i.X))})
 		}
 		if p.obj == 0 {
-			e.fail(st, "nil pointer dereference (field)", i.Pos())
-			panic(pathEnd{})
+			e.goPanic(st, "nil pointer dereference (field)", i.Pos())
 		}
 		stt := i.X.Type().Underlying().(*types.Pointer).Elem().Underlying().(*types.Struct)
 		f.env[i] = Pointer{obj: p.obj, off: Bin("bvadd", p.off, BV(64, uint64(fieldOffset(stt, i.Field))))}
@@ -584,8 +779,7 @@ func (e *Engine) exec(st *State, f *Frame, ins ssa.Instruction) {
 	case *ssa.MapUpdate:
 		m := e.get(st, i.Map).(MapV)
 		if m.obj == 0 {
-			e.fail(st, "assignment to entry in nil map", i.Pos())
-			panic(pathEnd{})
+			e.goPanic(st, "assignment to entry in nil map", i.Pos())
 		}
 		e.mapUpdate(st, m, e.get(st, i.Key), e.get(st, i.Value))
 	case *ssa.Lookup:
@@ -642,8 +836,11 @@ func (e *Engine) exec(st *State, f *Frame, ins ssa.Instruction) {
 				msg += ": " + s.conc
 			}
 		}
-		e.fail(st, msg, i.Pos())
-		panic(pathEnd{})
+		if e.canRecover(st) {
+			e.startUnwindVal(st, e.get(st, i.X), msg, i.Pos())
+			return
+		}
+		e.goPanic(st, msg, i.Pos())
 	default:
 		panic(unsupported{fmt.Sprintf("instruction %T", ins)})
 	}
@@ -905,7 +1102,7 @@ func (e *Engine) stringEq(st *State, a, b StringV) *Term {
 			if a.nonEmpty {
 				return Bool(false)
 			}
-			return e.fresh("strempty", 0)
+			return e.internalVar("strempty", 0)
 		}
 		return Eq(a.ln, BV(64, 0))
 	}
@@ -1011,8 +1208,7 @@ func (e *Engine) sliceOp(st *State, i *ssa.Slice) Value {
 		e.oblige(st, Or(Cmp("bvugt", hi, capT), Cmp("bvugt", lo, hi)), "slice bounds out of range", i.Pos())
 		es := slotsOf(at.Elem())
 		if x.obj == 0 {
-			e.fail(st, "nil pointer dereference (slice of nil array pointer)", i.Pos())
-			panic(pathEnd{})
+			e.goPanic(st, "nil pointer dereference (slice of nil array pointer)", i.Pos())
 		}
 		if !x.off.k || x.off.c%uint64(es) != 0 {
 			panic(unsupported{"slice of array at symbolic offset"})
@@ -1129,8 +1325,7 @@ func (e *Engine) typeAssert(st *State, i *ssa.TypeAssert) Value {
 		return TupleV{res, Bool(ok)}
 	}
 	if !ok {
-		e.fail(st, fmt.Sprintf("interface conversion: %v is not %v", iv.typ, i.AssertedType), i.Pos())
-		panic(pathEnd{})
+		e.goPanic(st, fmt.Sprintf("interface conversion: %v is not %v", iv.typ, i.AssertedType), i.Pos())
 	}
 	return res
 }
@@ -1312,13 +1507,11 @@ func (e *Engine) invoke(st *State, fv Value, args []Value, call *ssa.Call, pos t
 		panic(unsupported{fmt.Sprintf("call of %T", fv)})
 	}
 	if fn.name == "$nilinvoke" {
-		e.fail(st, "nil pointer dereference (method call on nil interface)", pos)
-		panic(pathEnd{})
+		e.goPanic(st, "nil pointer dereference (method call on nil interface)", pos)
 	}
 	if fn.fn == nil {
 		if fn.name == "" {
-			e.fail(st, "call of nil function", pos)
-			panic(pathEnd{})
+			e.goPanic(st, "call of nil function", pos)
 		}
 		setRes(e.builtin(st, fn.name, args, call, pos))
 		return
@@ -1329,27 +1522,16 @@ func (e *Engine) invoke(st *State, fv Value, args []Value, call *ssa.Call, pos t
 		return
 	}
 	if e.tolerant && fn.fn.Synthetic == "package initializer" {
-		return // other packages' initialisers are not run
-	}
-	if e.tolerant && fn.fn.Pkg != nil && len(st.frames) > 0 {
 		pp := fn.fn.Pkg.Pkg.Path()
-		allowed := pp == e.initPkg || pp == "net/netip" || pp == "errors" || pp == "encoding/binary" || pp == "internal/byteorder" || pp == "math/bits"
-		if !allowed {
+		if !initAllowed(pp) {
+			return // this package's initialiser is not interpreted; its globals are flagged on use
+		}
+		e.initPkgs[pp] = true
+	} else if e.tolerant && fn.fn.Pkg != nil && len(st.frames) > 0 {
+		pp := fn.fn.Pkg.Pkg.Path()
+		if !initAllowed(pp) {
 			if call != nil {
 				setRes(Unknown{"init-time call into " + pp})
-			}
-			return
-		}
-	}
-	if fn.fn.Pkg != nil {
-		switch fn.fn.Pkg.Pkg.Path() {
-		case "log/slog":
-			var rt types.Type
-			if call != nil {
-				rt = call.Type()
-			}
-			if rt != nil {
-				setRes(opaqueZero(rt))
 			}
 			return
 		}
@@ -1389,7 +1571,7 @@ func (e *Engine) builtin(st *State, name string, args []Value, call *ssa.Call, p
 				return x.ln
 			}
 			if x.opaque {
-				return e.fresh("opaquelen", 64)
+				return e.internalVar("opaquelen", 64)
 			}
 			return BV(64, uint64(len(x.conc)))
 		case MapV:
@@ -1434,8 +1616,7 @@ func (e *Engine) builtin(st *State, name string, args []Value, call *ssa.Call, p
 		return TupleV{}
 	case "ssa:wrapnilchk":
 		if p, ok := args[0].(Pointer); ok && p.obj == 0 {
-			e.fail(st, "value method called using nil pointer", pos)
-			panic(pathEnd{})
+			e.goPanic(st, "value method called using nil pointer", pos)
 		}
 		return args[0]
 	case "min", "max":
@@ -1453,7 +1634,12 @@ func (e *Engine) builtin(st *State, name string, args []Value, call *ssa.Call, p
 	case "print", "println":
 		return TupleV{}
 	case "recover":
-		return Iface{} // deferred calls only run on normal return in this probe
+		if st.panicking != nil && st.top().panicDefer {
+			v := st.panicking.val
+			st.panicking = nil
+			return v
+		}
+		return Iface{}
 	}
 	if len(args) == 0 {
 		panic(unsupported{"builtin " + name + "()"})
@@ -1661,32 +1847,3 @@ func (o *Object) elemType() types.Type {
 	return types.Typ[types.Uint8]
 }
 
-// ---- reporting ----
-
-func (e *Engine) Report() {
-	fmt.Printf("merged_leaves=%d ", e.Merged)
-	fmt.Printf("paths=%d completed=%d instrs=%d funcs=%d queries=%d solver=%.2fs unknown=%d\n", e.Paths, e.Completed, e.Instrs, len(e.Entered), e.sv.Queries, e.sv.Dur.Seconds(), e.sv.Unknown)
-	if len(e.Unsupp) > 0 {
-		keys := []string{}
-		for k := range e.Unsupp {
-			keys = append(keys, k)
-		}
-		sort.Strings(keys)
-		for _, k := range keys {
-			fmt.Printf("  UNSUPPORTED x%d: %s\n", e.Unsupp[k], k)
-		}
-	}
-	seen := map[string]bool{}
-	for _, v := range e.Violations {
-		key := v.What + v.Pos.String()
-		if seen[key] {
-			continue
-		}
-		seen[key] = true
-		fmt.Printf("  VIOLATION %s at %s model=%v\n", v.What, v.Pos, v.Model)
-	}
-	for k := range e.Reached {
-		fmt.Printf("  reached %s\n", k)
-	}
-	_ = os.Stdout
-}
